@@ -177,6 +177,9 @@ func (server *Server) ServeCodec(codec ServerCodec) {
 			})
 		}
 	}
+	// Requests still queued for decoding add to wg and touch the stream
+	// table: let that queue drain before waiting for the handlers.
+	drain(pipeline)
 	wg.Wait()
 	server.mutex.Lock()
 	server.deleteCodec(codec)
@@ -526,6 +529,7 @@ func (server *Server) listen(sock socket.Socket, address string, New NewServerCo
 			}
 			if err == io.EOF || err == io.ErrUnexpectedEOF {
 				if atomic.CompareAndSwapInt32(&svrctx.closed, 0, 1) {
+					drain(svrctx.pipeline)
 					svrctx.wg.Wait()
 					server.mutex.Lock()
 					delete(codecs, svrctx.codec)
